@@ -97,7 +97,7 @@ func fwdFrame(p, i int, v2, raw bool) (frame.Frame, ref.Frame) {
 
 func TestC11FanOut(t *testing.T) {
 	rec := evid.New(t, "C11", "2..5 channels on custom transports, 1..4 producer goroutines each running a generated program of WriteMessage/WriteFrame x All/To/Except with items tagged (producer, counter), targets including a closed channel, a channel of another node and nil; flow control keeps every channel's backlog below the 64-item queue; incoming traffic and a paced consumer run concurrently; per channel every transport write must be exactly one whole frame, each addressed item appears exactly once, nothing else appears, per (producer, channel) order is submission order, forwarded frames keep their header, frames received from outside (raw and decoded) are kept by the application and forwarded after everything else and must go out as they came in, unencodable items cost no other item its place, originated messages carry the node's ids and the link's own gapless sequence; non-trivial = >=2 producers on >=3 channels with at least one Except and one To; distinct by hash of the programs")
-	rec.Require("2+producers-3+channels-to-except", "closed-target", "foreign-target", "v1", "v2", "signed", "after-overflow-and-recovery", "unencodable-item-between-valid-ones", "received-frames-kept-and-forwarded-later", "longest-message-on-a-signed-link")
+	rec.Require("2+producers-3+channels-to-except", "closed-target", "foreign-target", "v1", "v2", "signed", "after-overflow-and-recovery", "unencodable-item-between-valid-ones", "received-frames-kept-and-forwarded-later", "longest-message-on-a-signed-link", "eight-or-more-refusals-in-a-row", "more-items-than-sequence-numbers")
 	evid.Check(t, rec, evid.N(300, 800), func(t *rapid.T) {
 		drawNodeInit(t)
 		w := &c11World{}
@@ -108,11 +108,29 @@ func TestC11FanOut(t *testing.T) {
 			w.key = &k
 		}
 		np := rapid.IntRange(1, 4).Draw(t, "producers")
+		// now and then: one producer alone, with a run of 8..12 unencodable items in a row somewhere (nothing
+		// encodable reaches any link in between), or with more items than a sequence number has values
+		special := rapid.SampledFrom([]string{"", "", "", "", "", "", "", "refusal-run", "long-run"}).Draw(t, "special_program")
+		if special != "" {
+			np = 1
+		}
 		for p := 0; p < np; p++ {
 			n := rapid.IntRange(5, 70).Draw(t, "nops")
+			if special == "long-run" {
+				n = rapid.IntRange(270, 330).Draw(t, "nops_long")
+			}
+			runAt, runLen := -1, 0
+			if special == "refusal-run" {
+				runAt, runLen = rapid.IntRange(0, n-1).Draw(t, "refusal_run_at"), rapid.IntRange(8, 12).Draw(t, "refusal_run_len")
+			}
 			var prog []wop
 			nUnenc := 0
 			for i := 0; i < n; i++ {
+				if i == runAt {
+					for k := 0; k < runLen; k++ {
+						prog = append(prog, wop{kind: rapid.SampledFrom([]string{"MsgAll", "MsgTo", "MsgExcept"}).Draw(t, "run_op"), target: rapid.IntRange(0, w.nch-1).Draw(t, "run_target"), unenc: true})
+					}
+				}
 				o := wop{kind: rapid.SampledFrom([]string{"MsgAll", "MsgTo", "MsgExcept", "FrameAll", "FrameTo", "FrameExcept"}).Draw(t, "op")}
 				o.target = rapid.IntRange(0, w.nch-1).Draw(t, "target")
 				if strings.HasSuffix(o.kind, "To") || strings.HasSuffix(o.kind, "Except") {
@@ -127,6 +145,10 @@ func TestC11FanOut(t *testing.T) {
 				if strings.HasPrefix(o.kind, "Msg") && nUnenc < 3 && rapid.IntRange(0, 11).Draw(t, "unencodable") == 0 {
 					o.unenc = true
 					nUnenc++
+				} else if special == "long-run" {
+					if rapid.IntRange(0, 5).Draw(t, "long_run_all") > 0 {
+						o.kind = "MsgAll" // most items go to every link, so that every link's counter passes 255
+					}
 				} else if strings.HasPrefix(o.kind, "Msg") && i < 60000 && rapid.IntRange(0, 9).Draw(t, "longest_message") == 0 {
 					o.big = true
 				}
@@ -199,6 +221,12 @@ func TestC11FanOut(t *testing.T) {
 		}
 		if w.overflowFirst >= 0 {
 			cls = append(cls, "after-overflow-and-recovery")
+		}
+		if special == "refusal-run" {
+			cls = append(cls, "eight-or-more-refusals-in-a-row")
+		}
+		if special == "long-run" {
+			cls = append(cls, "more-items-than-sequence-numbers")
 		}
 		rec.Case(nt, evid.HashS(w.describe()), cls...)
 		if nt && rec.WantSample("scenario") {
